@@ -789,6 +789,40 @@ func init() {
 		}
 		return ret1(st, TupleV{mkInt(v), IfaceV{}})
 	}
+	// sync/atomic on one thread of control = plain memory operations (the code under test starts no goroutine;
+	// sync.Once and sync.Mutex fast paths reach these).
+	atomicLoad := func(w *Worker, st *State, args []Value, fv *FuncV, depth int) []Outcome {
+		return ret1(st, st.load(args[0].(PtrV)))
+	}
+	atomicStore := func(w *Worker, st *State, args []Value, fv *FuncV, depth int) []Outcome {
+		st.store(args[0].(PtrV), args[1])
+		return ret1(st, nil)
+	}
+	atomicCAS := func(w *Worker, st *State, args []Value, fv *FuncV, depth int) []Outcome {
+		p := args[0].(PtrV)
+		cur, okc := st.load(p).(*Term)
+		old, oko := args[1].(*Term)
+		if !okc || !oko || !cur.isConst() || !old.isConst() {
+			unsupported("sync/atomic.CompareAndSwap on a symbolic word")
+		}
+		if concInt(cur, "atomic word") == concInt(old, "atomic old") {
+			st.store(p, args[2])
+			return ret1(st, mkBool(true))
+		}
+		return ret1(st, mkBool(false))
+	}
+	atomicAdd := func(w *Worker, st *State, args []Value, fv *FuncV, depth int) []Outcome {
+		p := args[0].(PtrV)
+		nv := mkAdd(st.load(p).(*Term), args[1].(*Term))
+		st.store(p, nv)
+		return ret1(st, nv)
+	}
+	for _, t := range []string{"Int32", "Uint32", "Int64", "Uint64", "Uintptr"} {
+		natives["sync/atomic.Load"+t] = atomicLoad
+		natives["sync/atomic.Store"+t] = atomicStore
+		natives["sync/atomic.CompareAndSwap"+t] = atomicCAS
+		natives["sync/atomic.Add"+t] = atomicAdd
+	}
 	ident := func(w *Worker, st *State, args []Value, fv *FuncV, depth int) []Outcome { return ret1(st, args[0]) }
 	natives["internal/stringslite.Clone"] = ident
 	natives["strings.Clone"] = ident
